@@ -237,6 +237,55 @@ static void limit_case(uint64_t idx, void *vctx)
     if (!vf_in_confirm) vf_outcome(h);
 }
 
+/* ---------------- rotations and flips that cover the source tightly ----------------
+ * The request is exactly the rotated source, so every sample lies inside by the sampling rule floor(p - e) - but only just: a blitter
+ * that rounds the origin differently touches column `width` or row `height`.  The source's storage ends (or starts) at a PROT_NONE page. */
+static void tight_rot_case(uint64_t idx, void *vctx)
+{
+    (void)vctx;
+    static const int32_t RM[6][4] = { { 0, F1, -F1, 0 }, { 0, -F1, F1, 0 }, { -F1, 0, 0, -F1 }, { -F1, 0, 0, F1 }, { F1, 0, 0, -F1 }, { 0, F1, F1, 0 } };
+    static const int32_t FR[6] = { 0, E, 0x8000 - E, 0x8000, 0x8000 + E, F1 - E };
+    static const pixman_format_code_t fm[4] = { PIXMAN_a8r8g8b8, PIXMAN_x8r8g8b8, PIXMAN_r5g6b5, PIXMAN_a8 };
+    static const int sz[4][2] = { { 5, 3 }, { 16, 7 }, { 33, 2 }, { 1, 9 } };
+    int dims[7] = { 2, 6, 6, 6, 4, 4, 2 }, d[7];
+    vf_decode(idx, dims, 7, d);
+    int place = d[0], ri = d[3], fi = d[4], si = d[5], fil = d[6];
+    int sw = sz[si][0], sh = sz[si][1];
+    int swap = RM[ri][0] == 0;                   /* quarter turn / transpose: destination is sh x sw */
+    int dw = swap ? sh : sw, dh = swap ? sw : sh;
+    gimg_t im = make_guarded(fm[fi], sw, sh, 0, place, idx + 17);
+    pixman_transform_t t; memset(&t, 0, sizeof t); t.matrix[2][2] = F1;
+    t.matrix[0][0] = RM[ri][0]; t.matrix[0][1] = RM[ri][1]; t.matrix[1][0] = RM[ri][2]; t.matrix[1][1] = RM[ri][3];
+    /* integer part: the image of the destination rectangle [0,dw)x[0,dh) is exactly [0,sw)x[0,sh); then the fraction is added.  Only
+     * fractions that keep every sample inside by the rule floor(p - e) are a "tight cover"; the others simply reach one pixel outside
+     * and must be handled by the repeat mode - both kinds are legal requests */
+    int negx = (RM[ri][0] < 0 || RM[ri][1] < 0), negy = (RM[ri][2] < 0 || RM[ri][3] < 0);
+    t.matrix[0][2] = (negx ? sw * F1 : 0) + (negx ? -FR[d[1]] : FR[d[1]]);
+    t.matrix[1][2] = (negy ? sh * F1 : 0) + (negy ? -FR[d[2]] : FR[d[2]]);
+    pixman_image_set_transform(im.img, &t);
+    pixman_image_set_filter(im.img, fil ? PIXMAN_FILTER_BILINEAR : PIXMAN_FILTER_NEAREST, NULL, 0);
+    static const int LC[3] = { PH_CFG_DEFAULT, PH_CFG_GENERAL, PH_CFG_WHOLEOPS };
+    uint64_t h = 0, n = 0;
+    for (int same = 0; same < 2; same++) {
+        gimg_t dd = make_guarded(same ? fm[fi] : PIXMAN_a8r8g8b8, dw, dh, 0, !place, 23);
+        for (int ci = 0; ci < 3; ci++) {
+            ph_set_cfg(LC[ci]);
+            for (int rep = 0; rep < 4; rep += 2) {
+                pixman_image_set_repeat(im.img, rep ? PIXMAN_REPEAT_PAD : PIXMAN_REPEAT_NONE);
+                pixman_image_composite32(PIXMAN_OP_SRC, im.img, NULL, dd.img, 0, 0, 0, 0, 0, 0, dw, dh);
+                pixman_image_composite32(PIXMAN_OP_OVER, im.img, NULL, dd.img, 0, 0, 0, 0, 0, 0, dw, dh);
+                n += 2;
+            }
+        }
+        h = vf_mix(h, vf_hash64(dd.g.lo, dd.g.size, 7));
+        free_guarded(&dd);
+    }
+    vf_count_libcalls(n);
+    free_guarded(&im);
+    vf_count_eval(1); vf_count_nontrivial(1);
+    if (!vf_in_confirm) vf_outcome(h);
+}
+
 /* ---------------- alpha maps whose size differs from their image's ----------------
  * The alpha map is its own image with its own width, height and storage; it is placed at an origin inside, partly outside or wholly
  * outside its owner.  Every fetcher (narrow and wide pipeline, untransformed and per-pixel) and the destination write-back must stay
@@ -478,14 +527,15 @@ int main(int argc, char **argv)
     vf_space_run("composite-transformed-sources", nfull, c4_case, &c);
     vf_space_run("trapezoid-entry-points", th ? (uint64_t)NTY * NTY * NTX * NTX * NTX * 3 * 5 : (uint64_t)9 * 9 * 7 * 7 * 7 * 3 * 2, trap_case, th ? &c : NULL);
     vf_space_run("coordinate-range-edges", (uint64_t)4 * 3 * 15 * 8 * 7 * 3 * 2, limit_case, NULL);
+    vf_space_run("rotations-covering-the-source-tightly", (uint64_t)2 * 6 * 6 * 6 * 4 * 4 * 2, tight_rot_case, NULL);
     vf_space_run("alpha-maps-of-other-sizes", (uint64_t)2 * 4 * 4 * 3 * 4 * 4 * 6 * 6, amap_case, NULL);
     vf_space_run("same-shape-copies-between-views", (uint64_t)6 * 4 * 3 * NCFG_LIST * 2, copy_case, NULL);
     vf_space_run("glyph-positions", (uint64_t)14 * 14 * 3 * 2 * 3, glyph_case, NULL);
     vf_space_run("create-bits-sizes", 9 * 9 * 6, create_case, NULL);
-    static char b[1000];
+    static char b[1400];
     snprintf(b, sizeof b, "%d source formats x %s sizes x %s stride modes x alternating guard-page placement x %d transforms x %d filters x 4 repeats x 6 requests x %d ops x %d cfgs x %d destination formats; "
              "trapezoids %dx%d y x %d^3 x values x 3 depths x %d offsets; same-shape copies between padded views (6 formats x 4 sizes x 3 ops x 6 cfgs); glyphs 14x14 positions; create_bits 9x9 sizes x 6 formats; coordinate-range edges: 7 filters (NEAREST, FAST, BILINEAR, GOOD, BEST, convolution, separable) x 8 scales (1/256..2, negative) x "
-             "15 translations within 1.5 pixels of +-32768 x axis x/y/both x 4 repeats x 3 source formats x 2 sizes x 4 cfgs x SRC/OVER x source/mask role onto one-row destinations ending / starting at a guard page; alpha maps: 6 map sizes x 6 origins x 4 map formats on an 8x2 owner in the source / mask / destination role x 4 transforms x 4 repeats x 4 partner formats (narrow and wide pipeline) x 3 ops x 2 cfgs", NSF, th ? "5 of 6" : "3 of 6", th ? "3" : "2 of 3", NXF, th ? 6 : 4,
+             "15 translations within 1.5 pixels of +-32768 x axis x/y/both x 4 repeats x 3 source formats x 2 sizes x 4 cfgs x SRC/OVER x source/mask role onto one-row destinations ending / starting at a guard page; tight-cover rotations: 6 turn/flip matrices x 6x6 translation fractions (0, e, 1/2-e, 1/2, 1/2+e, 1-e) x 4 formats x 4 sizes x nearest/bilinear x same-format and a8r8g8b8 destinations x NONE/PAD x SRC/OVER x 3 cfgs; alpha maps: 6 map sizes x 6 origins x 4 map formats on an 8x2 owner in the source / mask / destination role x 4 transforms x 4 repeats x 4 partner formats (narrow and wide pipeline) x 3 ops x 2 cfgs", NSF, th ? "5 of 6" : "3 of 6", th ? "3" : "2 of 3", NXF, th ? 6 : 4,
              th ? 3 : 2, th ? 6 : 4, th ? 2 : 1, th ? NTY : 9, th ? NTY : 9, th ? NTX : 7, th ? 5 : 2);
     vf_bounds = b;
     snprintf(vf->extra_json, sizeof vf->extra_json, "\"arithmetic_traps_observed\": %llu, \"arithmetic_traps_note\": \"SIGFPE (INT_MIN / -1 in pixman_edge_init for edges spanning the whole 16.16 y range) is a crash but not an out-of-bounds access; counted, not judged\"", (unsigned long long)*fpe_count);
